@@ -55,6 +55,8 @@ def main() -> int:
         # C17's translator rewrote the generated Lean file from the mutated tree: regenerate from /repo
         sh(["/venv/bin/python", str(ROOT / "harness" / "extract_locks.py"), "--repo", "/repo", "--out",
             str(ROOT / "lean" / "Redress" / "Generated" / "LockShape.lean")])
+        sh(["/venv/bin/python", str(ROOT / "harness" / "extract_forwarding.py"), "--repo", "/repo", "--out",
+            str(ROOT / "lean" / "Redress" / "Generated" / "Forwarding.lean")])
     return 0
 
 
